@@ -179,7 +179,7 @@ def build(func_or_stmts, region=False) -> CFG:
     stmts = func_or_stmts.body if isinstance(func_or_stmts, (ast.FunctionDef, ast.AsyncFunctionDef)) else list(func_or_stmts)
     out = b.seq(stmts, [(b.g.entry, None)])
     for n, lab in out:
-        b.g.edge(n, b.g.exit, 'fall' if lab is None else lab)
+        b.g.edge(n, b.g.exit, 'fall')
     return b.g
 
 
